@@ -363,7 +363,10 @@ hawk_oow_t hawk_arr_insert (hawk_arr_t* arr, hawk_oow_t pos, void* dptr, hawk_oo
 				return HAWK_ARR_NIL;
 			}
 
-			capa--; /* let it retry after lowering the capacity */
+			/* let it retry after lowering the capacity. halve what is above the
+			 * minimum rather than subtracting 1. a far position leaves a huge gap
+			 * between the two and each retry is a failing allocation */
+			capa = mincapa + (capa - mincapa) / 2;
 		}
 		while (1);
 
